@@ -15,11 +15,16 @@ LEVEL_TEXT = ("Theorems over the reals about the broadphase filters regenerated 
               "The real collision() is compared across 3 broadphases x all 16 filter masks on random scenes, including crowded scenes (about 12-40 geoms, 1-3 worlds with different poses) "
               "in which the sweep has more work packages than the 5*nworld*ngeom threads it is launched with (checked per scene by a NumPy transcription of projection/sort/sap_range), so that "
               "the sweep kernel's own stride loop iterates, with every kind of early-out inside that loop present: compile-time excluded pairs (static-static, same body, parent-child, "
-              "contype/conaffinity mismatch, <exclude>) and, every third scene, sleeping enabled with asleep/static/awake trees.")
+              "contype/conaffinity mismatch, <exclude>) and, every third scene, sleeping enabled with asleep/static/awake trees; and plane-position scenes in which planes have LOWER and HIGHER "
+              "geom ids than the geoms they meet (world plane declared last, plane on a static child body declared after the moving bodies, plane on a mocap body between them with a different "
+              "pose per world, several planes at once), with geoms placed per plane resting on it (centre above the surface within the bounding radius), in the margin band, below, just outside "
+              "and far, so that both argument orders of the plane filter decide real pairs (NXN orders a pair by geom id, the sweeps by projection); the reference is NXN with mask 0 = all pairs. "
+              "The real `_plane_filter` is additionally run on (plane, ball) and on the same pair handed over as (ball, plane) against the geometric statement in float64.")
 LEVEL_NOTE = ("C18_partial: `_obb_filter`, the mask dispatch and the SAP kernels are hand models/hypotheses (not yet translated); sort is a contract. Trusted: Lean kernel + Mathlib, translator, "
               "correspondence of the SAP hand model with the real kernels (the sweep kernel `_sap_broadphase` is not in Gen: its stride loop is covered by the hand-model theorems "
               "`sap_stride_partition`/`sap_enumerates_exactly_once`; that the REAL loop's early-outs (`continue`) do not abandon a thread's remaining work packages is covered only by the "
-              "crowded-scene comparison against NXN).")
+              "crowded-scene comparison against NXN). Which argument order of the filters a broadphase uses for a pair is not modelled in Lean: the plane theorems cover both branches of "
+              "`_plane_filter`, and the plane-position scenes cover that NXN reaches the second one (the sweeps never do while the plane-distance assumption holds).")
 ASSUMPTIONS = ["NaN-free poses (the property says so)", "plane distance < 1e10 (SAP gives planes radius MJ_MAXVAL; witness in C18Witness)"]
 
 
@@ -219,7 +224,252 @@ def _crowded_case(acc, ctx, rng, k):
               "ncon_ref": [len(x) for x in ref]}, limit=5)
 
 
-def _run(ctx, ncases, rec, ncrowd=0):
+_PLANE_TYPES = ["sphere", "capsule", "box", "ellipsoid", "cylinder"]
+# placement of a geom relative to its target plane, as (lo, hi) of  h = (signed centre distance - margins) / rbound :
+#   touch: centre ABOVE the surface by less than the bounding radius (resting / shallow penetration; the pair must survive every filter)
+#   band : centre above the surface by rbound + part of the margins (contact only through the margin)
+#   below: centre under the surface; near: just outside rbound+margins (no contact, culled by a correct filter); far: well outside
+_PLACEMENTS = ["touch", "band", "below", "touch", "near", "far"]
+_LAYOUTS = ["world-plane-declared-last", "static-body-plane-last", "mocap-plane-middle", "several-planes"]
+
+
+def _plane_geom(name, rng, margin, tilt):
+  z = f' zaxis="{rng.uniform(-tilt, tilt):.3f} {rng.uniform(-tilt, tilt):.3f} 1"' if tilt else ""
+  mg = f' margin="{margin}"' if margin else ""
+  return f'<geom name="{name}" type="plane" size="5 5 .1"{z}{mg}/>'
+
+
+def _planes_xml(rng, k):
+  """scene no. k of the plane-position family: free bodies around planes whose geom ids are LOWER and HIGHER than the ids of the
+  other geoms (NXN hands a pair to the filters ordered by geom id, the sweeps ordered by projection), layouts rotate with k"""
+  layout = k % 4
+  nbody = int(rng.integers(5, 9))
+  plane_margin = [0, 0.02][(k // 4) % 2]
+  bodies = []
+  for b in range(nbody):
+    t = "sphere" if b < 2 else _PLANE_TYPES[int(rng.integers(len(_PLANE_TYPES)))]  # two spheres: rbound is exact for them
+    r = rng.uniform(0.06, 0.12)
+    size = {"sphere": f"{r:.3f}", "capsule": f"{0.6 * r:.3f} {0.8 * r:.3f}", "cylinder": f"{0.8 * r:.3f} {0.7 * r:.3f}",
+            "box": f"{r:.3f} {0.7 * r:.3f} {0.8 * r:.3f}", "ellipsoid": f"{r:.3f} {0.7 * r:.3f} {0.8 * r:.3f}"}[t]
+    attr = ""
+    if t != "box" and (b % 3 == 1):  # put_model rejects box-box pairs with a margin
+      attr = f' margin="{[0.02, 0.05][b % 2]}"' + (' gap="0.01"' if b % 2 else "")
+    bodies.append(f'<body name="b{b}" pos="{0.3 * b:.2f} 0 1"><freejoint/><geom name="g{b}" type="{t}" size="{size}"{attr}/></body>')
+  mid = nbody // 2
+  static_last = f'<body name="ground" pos="0 0 {rng.uniform(-0.2, 0.2):.3f}">{_plane_geom("pl_last", rng, plane_margin, 0.3)}<geom name="post" type="sphere" size="0.05" pos="3 3 0"/></body>'
+  mocap_mid = f'<body name="mplane" mocap="true" pos="0 0 0">{_plane_geom("pl_mocap", rng, plane_margin, 0.0)}</body>'
+  if layout == 0:  # declared last but in the world body: MuJoCo numbers world geoms first, so the plane still has the lowest id
+    out = ['<geom name="ws" type="sphere" size="0.05" pos="-3 -3 0"/>'] + bodies + [_plane_geom("pl_world", rng, plane_margin, 0.3)]
+  elif layout == 1:
+    out = bodies + [static_last]
+  elif layout == 2:
+    out = bodies[:mid] + [mocap_mid] + bodies[mid:]
+  else:
+    out = [_plane_geom("pl_world", rng, 0, 0.0)] + bodies[:mid] + [mocap_mid] + bodies[mid:] + [static_last]
+  return '<mujoco><option gravity="0 0 0"/><worldbody>\n' + "\n".join(out) + "\n</worldbody></mujoco>", layout
+
+
+def _planes(rng, k):
+  import mujoco
+  xml, layout = _planes_xml(rng, k)
+  mjm = mujoco.MjModel.from_xml_string(xml)
+  mjd = mujoco.MjData(mjm)
+  nworld = 2 + k % 2
+  planes = [g for g in range(mjm.ngeom) if mjm.geom_type[g] == int(mujoco.mjtGeom.mjGEOM_PLANE)]
+  free = [g for g in range(mjm.ngeom) if mjm.body_dofnum[mjm.geom_bodyid[g]] == 6]
+  qpos = np.zeros((nworld, mjm.nq))
+  mpos = np.zeros((nworld, mjm.nmocap, 3))
+  mquat = np.zeros((nworld, mjm.nmocap, 4))
+  feats = set()
+  for w in range(nworld):
+    # the mocap plane is moved and tilted differently in every world
+    for i in range(mjm.nmocap):
+      mpos[w, i] = rng.uniform(-0.3, 0.3, size=3)
+      ax = rng.normal(size=3)
+      ang = rng.uniform(-0.5, 0.5)
+      mquat[w, i] = np.concatenate([[np.cos(ang / 2)], np.sin(ang / 2) * ax / np.linalg.norm(ax)])
+    mjd.mocap_pos[:], mjd.mocap_quat[:] = mpos[w], mquat[w]
+    mjd.qpos[:] = mjm.qpos0
+    mujoco.mj_kinematics(mjm, mjd)
+    q = mjm.qpos0.copy()
+    for n, g in enumerate(free):
+      p = planes[(n + w + k) % len(planes)]  # target plane rotates over bodies, worlds and scenes
+      place = _PLACEMENTS[(n + 2 * w + k) % len(_PLACEMENTS)]
+      if place == "band" and mjm.geom_margin[p] + mjm.geom_margin[g] == 0.0:
+        place = "touch"  # without a margin the band is the threshold itself (a float32 rounding question)
+      nrm = mjd.geom_xmat[p].reshape(3, 3)[:, 2]
+      msum = mjm.geom_margin[p] + mjm.geom_gap[p] + mjm.geom_margin[g] + mjm.geom_gap[g]
+      rb = mjm.geom_rbound[g]
+      h = {"touch": rng.uniform(0.15, 0.9) * rb, "band": rb + rng.uniform(0.1, 0.6) * mjm.geom_margin[g] + mjm.geom_margin[p] * 0.3,
+           "below": -rng.uniform(0.1, 0.8) * rb, "near": rb + msum + rng.uniform(0.01, 0.05), "far": rb + msum + rng.uniform(0.3, 1.0)}[place]
+      t1 = np.cross(nrm, [1.0, 0.0, 0.0])
+      t1 /= np.linalg.norm(t1)
+      t2 = np.cross(nrm, t1)
+      a = mjm.jnt_qposadr[mjm.body_jntadr[mjm.geom_bodyid[g]]]
+      q[a:a + 3] = mjd.geom_xpos[p] + h * nrm + rng.uniform(-0.7, 0.7) * t1 + rng.uniform(-0.7, 0.7) * t2
+      qq = rng.normal(size=4)
+      q[a + 3:a + 7] = qq / np.linalg.norm(qq)
+    qpos[w] = q
+    # which (plane, geom) configurations does this world really contain?  (float64, from MuJoCo's kinematics)
+    mjd.qpos[:] = q
+    mujoco.mj_kinematics(mjm, mjd)
+    for p in planes:
+      nrm = mjd.geom_xmat[p].reshape(3, 3)[:, 2]
+      for g in free:
+        dist = float(np.dot(mjd.geom_xpos[g] - mjd.geom_xpos[p], nrm))
+        msum = mjm.geom_margin[p] + mjm.geom_gap[p] + mjm.geom_margin[g] + mjm.geom_gap[g]
+        pos = "plane-id-higher" if p > g else "plane-id-lower"
+        if msum < dist <= mjm.geom_rbound[g] + msum:
+          feats.add(f"{pos}:centre-above-within-rbound")
+        elif dist <= msum:
+          feats.add(f"{pos}:centre-below")
+        else:
+          feats.add(f"{pos}:outside")
+  return {"xml": xml, "layout": layout, "mjm": mjm, "mjd": mjd, "nworld": nworld, "qpos": qpos, "mocap_pos": mpos, "mocap_quat": mquat, "planes": planes, "feats": feats}
+
+
+def _planes_case(acc, ctx, rng, k):
+  """collision() of one plane-position scene under every broadphase x mask; the reference is NXN with mask 0 (all pairs, no culling)"""
+  import warp as wp
+  import mujoco_warp as mjw
+  sc = _planes(rng, k)
+  mjm, nworld, planes = sc["mjm"], sc["nworld"], set(sc["planes"])
+  m = mjw.put_model(mjm)
+  d = mjw.put_data(mjm, sc["mjd"], nworld=nworld, naconmax=nworld * 200)
+  d.qpos = wp.array(sc["qpos"].astype(np.float32), dtype=float)
+  if mjm.nmocap:
+    d.mocap_pos = wp.array(sc["mocap_pos"].astype(np.float32), dtype=wp.vec3)
+    d.mocap_quat = wp.array(sc["mocap_quat"].astype(np.float32), dtype=wp.quat)
+  mjw.kinematics(m, d)
+  # quick tier: the masks whose kernels the other cases of this run build anyway (0, 11 = default PLANE|SPHERE|OBB, 15); all 16 in thorough
+  masks = list(range(16)) if ctx.thorough else [0, 11, 15]
+  res = {}
+  for bp in (0, 1, 2):
+    for mask in masks:
+      m.opt.broadphase = mjw.BroadphaseType(bp)
+      m.opt.broadphase_filter = mask
+      mjw.collision(m, d)
+      acc.evals += 1
+      res[(bp, mask)] = [world_contacts(d, w) for w in range(nworld)]
+  ref = res[(0, 0)]
+  late = sum(1 for rows in ref for r in rows if r[1] in planes)      # canonical rows are (low id, high id, ...)
+  early = sum(1 for rows in ref for r in rows if r[0] in planes)
+  if late or early:
+    acc.distinct.add(("planes", k))
+  acc.hit("planes")
+  acc.hit("planes:layout:" + _LAYOUTS[sc["layout"]])
+  for f in sorted(sc["feats"]):
+    acc.hit("planes:" + f)
+  if late:
+    acc.hit("planes:reference-contact-with-higher-id-plane")
+  if early:
+    acc.hit("planes:reference-contact-with-lower-id-plane")
+  if mjm.nmocap:
+    acc.hit("planes:mocap-plane-per-world-pose")
+  if len(planes) > 1:
+    acc.hit("planes:several-planes")
+  replay = dict(xml=sc["xml"], qpos=sc["qpos"].tolist(), nworld=nworld, mocap_pos=sc["mocap_pos"].tolist(), mocap_quat=sc["mocap_quat"].tolist())
+  for (bp, mask), cons in res.items():
+    if cons == ref:
+      continue
+    lost = [r for w in range(nworld) for r in ref[w] if r not in cons[w]]
+    extra = [r for w in range(nworld) for r in cons[w] if r not in ref[w]]
+    diff = lost + extra
+    only_planes = bool(diff) and all(r[0] in planes or r[1] in planes for r in diff)
+    where = sorted({"plane has the higher geom id" if r[1] in planes else "plane has the lower geom id" for r in diff if r[0] in planes or r[1] in planes})
+    name = mjw.BroadphaseType(bp).name
+    if only_planes and (mask & 1):
+      acc.find(f"plane scene ({_LAYOUTS[sc['layout']]}, {mjm.ngeom} geoms, planes = geoms {sorted(planes)}): {name}/mask {mask} loses {len(lost)} and invents {len(extra)} "
+               f"contacts, all with a plane ({'; '.join(where)}), relative to NXN/mask 0 ({[len(x) for x in ref]} contacts per world); first: {diff[0][:3]}",
+               "collision_driver._plane_filter", "plane-pair-differs-from-all-pairs", broadphase=bp, mask=mask, **replay)
+    else:
+      acc.find(f"plane scene ({_LAYOUTS[sc['layout']]}, {mjm.ngeom} geoms): {name}/mask {mask} gives {[len(x) for x in cons]} contacts per world, NXN/mask 0 gives "
+               f"{[len(x) for x in ref]} (lost {len(lost)}, extra {len(extra)})", "collision_driver", "broadphase-mismatch", broadphase=bp, mask=mask, **replay)
+  acc.sample({"planes": k, "layout": _LAYOUTS[sc["layout"]], "ngeom": int(mjm.ngeom), "plane_geoms": sorted(planes), "nworld": nworld,
+              "ncon_ref": [len(x) for x in ref], "ref_contacts_plane_higher_id": late, "ref_contacts_plane_lower_id": early}, limit=5)
+
+
+_PF_SRC = '''import warp as wp
+from mujoco_warp._src import collision_driver
+
+
+@wp.kernel(module="unique")
+def k_plane_filter(size1: wp.array(dtype=float), size2: wp.array(dtype=float), margin1: wp.array(dtype=float), margin2: wp.array(dtype=float),
+                   xpos1: wp.array(dtype=wp.vec3), xpos2: wp.array(dtype=wp.vec3), xmat1: wp.array(dtype=wp.mat33), xmat2: wp.array(dtype=wp.mat33),
+                   out: wp.array(dtype=int)):
+  i = wp.tid()
+  if collision_driver._plane_filter(size1[i], size2[i], margin1[i], margin2[i], xpos1[i], xpos2[i], xmat1[i], xmat2[i]):
+    out[i] = 1
+  else:
+    out[i] = 0
+'''
+
+
+def _plane_filter_positions(acc, rng, ncases):
+  """the REAL `_plane_filter` on (plane, ball) and on the SAME pair handed over as (ball, plane), against the geometric statement
+  in float64: keep the pair iff the ball of radius rbound around the centre comes within the margins of the half space"""
+  import importlib.util
+  import os
+  import sys
+  import warp as wp
+  from harness.corr import func_corr
+  d = os.path.join(func_corr.CACHE, "funccorr")
+  os.makedirs(d, exist_ok=True)
+  path = os.path.join(d, "c18_plane_filter_kernel.py")
+  if not os.path.exists(path) or open(path).read() != _PF_SRC:
+    open(path, "w").write(_PF_SRC)
+  spec = importlib.util.spec_from_file_location("c18_plane_filter_kernel", path)
+  mod = importlib.util.module_from_spec(spec)
+  sys.modules["c18_plane_filter_kernel"] = mod
+  spec.loader.exec_module(mod)
+  rb = rng.uniform(0.02, 0.5, size=ncases).astype(np.float32)
+  mp = np.where(rng.random(ncases) < 0.5, 0.0, rng.uniform(0.0, 0.05, size=ncases)).astype(np.float32)
+  mg = np.where(rng.random(ncases) < 0.5, 0.0, rng.uniform(0.0, 0.05, size=ncases)).astype(np.float32)
+  xp = rng.uniform(-1, 1, size=(ncases, 3)).astype(np.float32)
+  rot = np.zeros((ncases, 3, 3), dtype=np.float32)
+  rotg = np.zeros((ncases, 3, 3), dtype=np.float32)
+  for c in range(ncases):
+    for out in (rot, rotg):
+      a, _ = np.linalg.qr(rng.normal(size=(3, 3)))
+      out[c] = a * np.sign(np.linalg.det(a))
+  # signed distance of the centre in units of (rbound + margins): inside, straddling the surface, close to the threshold on both sides, outside
+  u = np.choose(np.arange(ncases) % 6, [rng.uniform(-2, 0, ncases), rng.uniform(0.05, 0.95, ncases), rng.uniform(0.05, 0.95, ncases),
+                                        rng.uniform(0.9, 0.99, ncases), rng.uniform(1.01, 1.1, ncases), rng.uniform(1.2, 4, ncases)])
+  thr = rb.astype(np.float64) + mp + mg
+  tang = rng.uniform(-1, 1, size=(ncases, 3))
+  nrm = rot[:, :, 2].astype(np.float64)
+  tang -= np.sum(tang * nrm, axis=1)[:, None] * nrm
+  xg = (xp + (u * thr)[:, None] * nrm + tang).astype(np.float32)
+  dist = np.sum((xg.astype(np.float64) - xp) * nrm, axis=1)
+  expect = dist <= thr
+  decided = np.abs(dist - thr) > 1e-5 * (1.0 + np.abs(xg).max(axis=1) + np.abs(xp).max(axis=1))  # float32 rounding of positions/dot product
+  zero = np.zeros(ncases, dtype=np.float32)
+
+  def call(s1, s2, m1, m2, x1, x2, r1, r2):
+    o = wp.zeros(ncases, dtype=int)
+    wp.launch(mod.k_plane_filter, dim=ncases, inputs=[wp.array(s1, dtype=float), wp.array(s2, dtype=float), wp.array(m1, dtype=float), wp.array(m2, dtype=float),
+                                                      wp.array(x1, dtype=wp.vec3), wp.array(x2, dtype=wp.vec3), wp.array(r1, dtype=wp.mat33), wp.array(r2, dtype=wp.mat33)], outputs=[o])
+    return o.numpy().astype(bool)
+
+  first = call(zero, rb, mp, mg, xp, xg, rot, rotg)
+  second = call(rb, zero, mg, mp, xg, xp, rotg, rot)
+  acc.evals += 2 * ncases
+  acc.hit("plane_filter:plane-first")
+  acc.hit("plane_filter:plane-second")
+  if np.any(expect & decided & (dist > mp + mg)):
+    acc.hit("plane_filter:centre-above-within-rbound")
+  for tag, got in (("first", first), ("second", second)):
+    bad = np.nonzero((got != expect) & decided)[0]
+    if len(bad):
+      c = int(bad[0])
+      acc.find(f"_plane_filter with the plane as the {tag} geom returns {bool(got[c])} for a geom of bounding radius {rb[c]:.4f} whose centre is {dist[c]:.4f} above the plane "
+               f"(margins {mp[c]:.4f}+{mg[c]:.4f}; keep iff distance <= {thr[c]:.4f}); {len(bad)} of {int(decided.sum())} decided cases wrong"
+               + ("" if tag == "first" or not np.array_equal(first[decided], expect[decided]) else "; the same pairs handed over plane-first are answered correctly"),
+               "collision_driver._plane_filter", f"plane-{tag}-wrong-decision", rbound=float(rb[c]), margin_plane=float(mp[c]), margin_geom=float(mg[c]),
+               xpos_plane=xp[c].tolist(), xpos_geom=xg[c].tolist(), xmat_plane=rot[c].tolist(), xmat_geom=rotg[c].tolist())
+
+
+def _run(ctx, ncases, rec, ncrowd=0, nplanes=0):
   import mujoco
   import mujoco_warp as mjw
   from harness.gen import models
@@ -274,6 +524,11 @@ def _run(ctx, ncases, rec, ncrowd=0):
     # crowded scenes: feature rotation (floor: k%2, sleep: k%3==1, nworld: 1+k%3) continues across seeds
     for i in range(ncrowd):
       _crowded_case(acc, ctx, rng, ctx.seed * ncrowd + i)
+    # plane-position scenes: layout k%4, plane margin (k//4)%2, nworld 2+k%2 continue across seeds
+    for i in range(nplanes):
+      _planes_case(acc, ctx, rng, ctx.seed * nplanes + i)
+    if nplanes:
+      _plane_filter_positions(acc, rng, 96 * nplanes)
 
   if rec:
     kc, _ = intercept(KERNELS, scenario, rng, max_tids=16, per_kernel=3)
@@ -290,16 +545,25 @@ RULE = ("random forests of 2-5 free/hinged bodies with sphere/capsule/box/ellips
         "NumPy-transcribed number of sweep work packages is >= 1.6 x the 5*nworld*ngeom threads; hit 'crowded:sap-stride>1' iff it exceeds the thread count), floor (+30% tilted wall) iff k even, "
         "nworld = 1+k%3 with independent random poses per world, sleep flag with >=2 asleep and >=1 awake tree per world iff k%3==1 (d.body_awake written directly after kinematics); one Model/Data "
         "reused for broadphase x masks ({0,11,15} quick, {0,15} quick+sleep, all 16 thorough), reference NXN/mask 0; a SAP result that differs while NXN with the same mask agrees is reported at site "
-        "collision_driver.sap_broadphase; scenes whose pair/contact buffers overflow are skipped (hit)")
+        "collision_driver.sap_broadphase; scenes whose pair/contact buffers overflow are skipped (hit). PLUS plane-position scenes (3 quick / 8 thorough / 12 search; index k = seed*n+i): 5-8 free bodies "
+        "with one geom each (two spheres, then random types; every third non-box geom with margin 0.02/0.05 and gap 0.01), planes by layout k%4: 0 = world plane declared after all bodies (still the lowest "
+        "ids), 1 = tilted plane on a static child body declared last (highest id, plus a static sphere on it), 2 = plane on a mocap body declared between the bodies, moved and tilted (<=0.5 rad) differently "
+        "in every world, 3 = world floor first + mocap plane in the middle + static-body plane last; plane margin 0.02 iff (k//4)%2; nworld = 2+k%2; body n of world w is put relative to plane "
+        "(n+w+k)%nplanes at signed centre height by placement (n+2w+k)%6 in [touch: 0.15-0.9 rbound, band: rbound + part of the margins (touch if there are none), below: -(0.1-0.8) rbound, touch, "
+        "near: rbound+margins+gaps+0.01-0.05, far: +0.3-1.0] with random tangential offset <=0.7 and orientation; hits record per scene which (plane id lower/higher) x (centre above within rbound / "
+        "below / outside) configurations MuJoCo's float64 kinematics really contains and whether the reference has contacts with a lower-/higher-id plane; one Model/Data for 3 broadphases x masks "
+        "({0,11,15} quick, all 16 thorough) against NXN/mask 0; a difference made only of plane contacts under a mask with the PLANE bit is reported at collision_driver._plane_filter. PLUS 96 x n direct "
+        "calls of the real _plane_filter with the plane first and the same pair with the plane second (rbound 0.02-0.5, margins 0 or <=0.05 on either geom, random frames, centre height -2..4 x "
+        "(rbound+margins) with a sixth each just inside/outside the threshold) against `distance <= rbound + margins` in float64; cases within 1e-5 x position magnitude of the threshold are not judged")
 
 
 def correspondence(ctx):
   from harness.corr import func_corr
   fc = func_corr.run(["collision_driver._plane_filter", "collision_driver._sphere_filter", "collision_driver._aabb_filter"], ncases=192 if ctx.thorough else 64, seed=ctx.seed)
-  acc, kc = _run(ctx, 20 if ctx.thorough else 6, True, ncrowd=6 if ctx.thorough else 3)
+  acc, kc = _run(ctx, 20 if ctx.thorough else 6, True, ncrowd=6 if ctx.thorough else 3, nplanes=8 if ctx.thorough else 3)
   return result(acc, RULE, kc=kc, fc=fc)
 
 
 def search(ctx, breaks):
-  acc, _ = _run(ctx, 40, False, ncrowd=12)
+  acc, _ = _run(ctx, 40, False, ncrowd=12, nplanes=12)
   return search_result(acc, "the other broadphases / filter masks")
